@@ -2,6 +2,7 @@ package main
 
 import (
 	"strings"
+	"time"
 
 	"golang.org/x/tools/go/ssa"
 )
@@ -400,4 +401,181 @@ func init() {
 		groupMutedReportRule(o)
 		o.MinSites(3)
 	})
+}
+
+// globalMapLiteral reads a package-level map literal: the entries written to the map the package
+// initialiser stores in the global (constant keys and values, rendered).
+func globalMapLiteral(e *Eng, init *ssa.Function, global string) (map[string]string, ssa.Instruction) {
+	for _, in := range AllInstrs(init) {
+		st, ok := in.(*ssa.Store)
+		if !ok {
+			continue
+		}
+		g, ok := st.Addr.(*ssa.Global)
+		if !ok || g.Name() != global {
+			continue
+		}
+		mm, ok := st.Val.(*ssa.MakeMap)
+		if !ok {
+			return nil, st
+		}
+		out := map[string]string{}
+		for _, r := range *mm.Referrers() {
+			if mu, ok := r.(*ssa.MapUpdate); ok {
+				out[e.X(init, mu.Key)] = e.X(init, mu.Value)
+			}
+		}
+		return out, st
+	}
+	return nil, nil
+}
+
+// intervalParseRule (C15.9): a time interval specification is read as it is written.  The containment
+// test (C15.1–C15.3) is exact for the numbers stored in the ranges; this rule decides that those numbers
+// are the ones the specification names.
+func intervalParseRule(o *Ob) {
+	e := o.E
+	// (1) begin:end — the first component is the beginning, the second the end; a single value is both
+	sr := o.Fn("am/timeinterval.stringableRangeFromString")
+	nb, ne := 0, 0
+	for _, set := range []struct{ m, what string }{{"invoke:am/timeinterval.stringableRange.setBegin", "beginning"}, {"invoke:am/timeinterval.stringableRange.setEnd", "end"}} {
+		for _, c := range e.Calls(sr, set.m) {
+			a := e.Arg(c, 1)
+			o.Site(c, set.what+" := "+clip(a))
+			single := strings.Contains(a, ".memberFromString(p1, strings.ToLower(p0))#0")
+			idx := "[0]"
+			if set.what == "end" {
+				idx = "[1]"
+			}
+			comp := strings.Contains(a, `.memberFromString(p1, strings.Split(strings.ToLower(p0), ":")`+idx+")#0")
+			o.Check(e.Arg(c, 0) == "p1" && (single || comp), "range-"+set.what, "the "+set.what+" of a range is read from "+clip(a), c)
+			if set.what == "end" {
+				ne++
+			} else {
+				nb++
+			}
+		}
+	}
+	o.Check(nb >= 1 && nb == ne, "range-sets", "a parsed range must get both its beginning and its end", fnFirst(sr))
+	for _, c := range e.Calls(sr, "invoke:am/timeinterval.stringableRange.memberFromString") {
+		bad := L("("+e.X(sr, c.(*ssa.Call))+"#1 == nil)", false)
+		o.rejectsAfter(sr, bad, "range-member-error", "a range component that is not a valid member")
+	}
+	two := LRe(`^\(len\(strings\.Split\(strings\.ToLower\(p0\), ":"\)\) == 2\)$`, false)
+	o.rejectsAfter(sr, two, "range-components", "a range with more than two components")
+	// (2) the setters and the members
+	for _, s := range [][2]string{{"setBegin", "Begin"}, {"setEnd", "End"}} {
+		f := o.Fn("(*am/timeinterval.InclusiveRange)." + s[0])
+		sts := e.StoresTo(f, "recv."+s[1])
+		o.Check(len(sts) == 1 && e.X(f, sts[0].Val) == "p0" && len(e.StoresToField(f, "am/timeinterval.InclusiveRange", "Begin"))+len(e.StoresToField(f, "am/timeinterval.InclusiveRange", "End")) == 1, "setter|"+s[0], s[0]+" must set exactly "+s[1]+" to the given value", fnFirst(f))
+		o.SiteS(s[0] + " sets " + s[1])
+	}
+	num := o.Fn("(*am/timeinterval.InclusiveRange).memberFromString")
+	o.Table(num, "member-number", []Row{
+		{Name: "a number", Assume: A(L("(strconv.Atoi(p0)#1 == nil)", true)), Ret: [][]string{Vals("strconv.Atoi(p0)#0"), Vals("nil")}},
+	})
+	o.rejectsAfter(num, L("(strconv.Atoi(p0)#1 == nil)", false), "member-number-error", "a member that is not a number")
+	wd := o.Fn("(*am/timeinterval.WeekdayRange).memberFromString")
+	o.Table(wd, "member-weekday", []Row{
+		{Name: "a day name", Assume: A(L("am/timeinterval.daysOfWeek[p0]#1", true)), Ret: [][]string{Vals("am/timeinterval.daysOfWeek[p0]#0"), Vals("nil")}},
+	})
+	o.rejectsAfter(wd, L("am/timeinterval.daysOfWeek[p0]#1", false), "member-weekday-error", "a weekday that is not a day name")
+	mo := o.Fn("(*am/timeinterval.MonthRange).memberFromString")
+	o.Table(mo, "member-month", []Row{
+		{Name: "a month name", Assume: A(L("am/timeinterval.months[p0]#1", true)), Ret: [][]string{Vals("am/timeinterval.months[p0]#0"), Vals("nil")}},
+		{Name: "a month number", Assume: A(L("am/timeinterval.months[p0]#1", false), L("(strconv.Atoi(p0)#1 == nil)", true)), Ret: [][]string{Vals("strconv.Atoi(p0)#0"), Vals("nil")}},
+	})
+	o.rejectsAfter(mo, L("(strconv.Atoi(p0)#1 == nil)", false), "member-month-error", "a month that is neither a name nor a number")
+	// (3) the name tables agree with the calendar the containment test uses (time.Weekday, time.Month)
+	ini := o.Fn("am/timeinterval.init")
+	days, at := globalMapLiteral(e, ini, "daysOfWeek")
+	if o.Check(days != nil, "table-days", "the weekday names are no longer a literal table", at) {
+		o.Site(at, "weekday names: "+itoa(len(days))+" entries")
+		o.Check(len(days) == 7, "table-days-size", "the weekday table must name the seven days, has "+itoa(len(days)), at)
+		for d := time.Sunday; d <= time.Saturday; d++ {
+			k := `"` + strings.ToLower(d.String()) + `"`
+			o.Check(days[k] == itoa(int(d)), "table-days|"+d.String(), "the weekday table maps "+k+" to "+days[k]+", the calendar's number of that day is "+itoa(int(d)), at)
+		}
+	}
+	mon, at2 := globalMapLiteral(e, ini, "months")
+	if o.Check(mon != nil, "table-months", "the month names are no longer a literal table", at2) {
+		o.Site(at2, "month names: "+itoa(len(mon))+" entries")
+		o.Check(len(mon) == 12, "table-months-size", "the month table must name the twelve months, has "+itoa(len(mon)), at2)
+		for m := time.January; m <= time.December; m++ {
+			k := `"` + strings.ToLower(m.String()) + `"`
+			o.Check(mon[k] == itoa(int(m)), "table-months|"+m.String(), "the month table maps "+k+" to "+mon[k]+", the calendar's number of that month is "+itoa(int(m)), at2)
+		}
+	}
+	// (4) HH:MM is hour*60+minute, of the first and the second component
+	pt := o.Fn("am/timeinterval.parseTime")
+	hh, mm := `strconv.Atoi(strings.Split(p0, ":")[0])#0`, `strconv.Atoi(strings.Split(p0, ":")[1])#0`
+	okv := map[string]bool{"((" + hh + " * 60) + " + mm + ")": true, "(" + mm + " + (" + hh + " * 60))": true, "((60 * " + hh + ") + " + mm + ")": true, "(" + mm + " + (60 * " + hh + "))": true}
+	nok := 0
+	for _, ret := range (&Walk{Fn: pt}).FromEntry().Returns() {
+		if e.X(pt, ret.Results[1]) != "nil" {
+			continue
+		}
+		nok++
+		v := e.X(pt, ret.Results[0])
+		o.Site(ret, "minutes = "+v)
+		o.Check(okv[v], "time-value", "HH:MM must be read as hour*60+minute of its two components, is read as "+clip(v), ret)
+	}
+	o.Check(nok >= 1, "time-accepts", "parseTime has no accepting exit", fnFirst(pt))
+	valid := LRe(`^\(\*regexp\.Regexp\)\.MatchString\(am/timeinterval\.validTimeRE, p0\)$`, false)
+	o.rejectsAfter(pt, valid, "time-format", "a time that is not of the form HH:MM")
+	// (5) a time range: start and end are the parsed StartTime and EndTime; empty or reversed is rejected
+	tr := o.Fn("(*am/timeinterval.TimeRange).UnmarshalYAML")
+	for _, f := range [][2]string{{"StartMinute", "StartTime"}, {"EndMinute", "EndTime"}} {
+		sts := e.StoresTo(tr, "recv."+f[0])
+		if o.Check(len(sts) == 1, "timerange-store|"+f[0], "a parsed time range must set "+f[0]+" once", fnFirst(tr)) {
+			v := e.X(tr, sts[0].Val)
+			o.Site(sts[0], f[0]+" := "+clip(v))
+			o.Check(strings.HasPrefix(v, "am/timeinterval.parseTime(") && strings.HasSuffix(v, "."+f[1]+")#0"), "timerange-value|"+f[0], f[0]+" is read from "+clip(v)+", not from "+f[1], sts[0])
+		}
+	}
+	for _, c := range e.Calls(tr, "am/timeinterval.parseTime") {
+		o.rejectsAfter(tr, L("("+e.X(tr, c.(*ssa.Call))+"#1 == nil)", false), "timerange-parse-error", "a time that does not parse")
+	}
+	ps := e.Calls(tr, "am/timeinterval.parseTime")
+	if o.Check(len(ps) == 2, "timerange-parses", "a time range parses its start and its end", fnFirst(tr)) {
+		var sx, ex string
+		for _, c := range ps {
+			if strings.HasSuffix(e.Arg(c, 0), ".StartTime") {
+				sx = e.X(tr, c.(*ssa.Call)) + "#0"
+			} else {
+				ex = e.X(tr, c.(*ssa.Call)) + "#0"
+			}
+		}
+		rev := LitM{"start ≥ end", func(l Lit) bool {
+			return !l.Pos && l.Atom == "("+sx+" < "+ex+")" || l.Pos && (l.Atom == "("+ex+" <= "+sx+")" || l.Atom == "("+sx+" >= "+ex+")") || !l.Pos && l.Atom == "("+ex+" > "+sx+")"
+		}}
+		o.rejectsAfter(tr, rev, "timerange-order", "a time range whose start is not before its end")
+	}
+	// (6) the other ranges: read through stringableRangeFromString into the range itself; reversed and out-of-calendar bounds are rejected
+	rev := LitM{"end before beginning", func(l Lit) bool {
+		return l.Pos && (l.Atom == "(recv.InclusiveRange.End < recv.InclusiveRange.Begin)" || l.Atom == "(recv.InclusiveRange.Begin > recv.InclusiveRange.End)") ||
+			!l.Pos && (l.Atom == "(recv.InclusiveRange.Begin <= recv.InclusiveRange.End)" || l.Atom == "(recv.InclusiveRange.End >= recv.InclusiveRange.Begin)")
+	}}
+	for _, T := range []string{"WeekdayRange", "DayOfMonthRange", "MonthRange", "YearRange"} {
+		f := o.Fn("(*am/timeinterval." + T + ").UnmarshalYAML")
+		c := o.One(e.Calls(f, "am/timeinterval.stringableRangeFromString"), "range-read|"+T, T+" must be read with the range parser", f)
+		o.Site(c, T+" read into "+e.Arg(c, 1))
+		o.Check(e.Arg(c, 1) == "recv", "range-read-into|"+T, T+" is parsed into "+e.Arg(c, 1)+", not into the range being read", c)
+		o.rejectsAfter(f, L("("+e.X(f, c.(*ssa.Call))+" == nil)", false), "range-read-error|"+T, "a "+T+" that does not parse")
+		if T != "DayOfMonthRange" {
+			o.rejectsAfter(f, rev, "range-order|"+T, "a "+T+" that ends before it begins")
+		}
+	}
+	wu := o.Fn("(*am/timeinterval.WeekdayRange).UnmarshalYAML")
+	for _, b := range []string{"Begin", "End"} {
+		o.rejectsAfter(wu, L("(recv.InclusiveRange."+b+" < 0)", true), "weekday-bounds|"+b+"-low", "a weekday before sunday")
+		o.rejectsAfter(wu, L("(recv.InclusiveRange."+b+" < 7)", false), "weekday-bounds|"+b+"-high", "a weekday after saturday")
+	}
+	du := o.Fn("(*am/timeinterval.DayOfMonthRange).UnmarshalYAML")
+	for _, b := range []string{"Begin", "End"} {
+		o.rejectsAfter(du, L("(recv.InclusiveRange."+b+" == 0)", true), "dom-bounds|"+b+"-zero", "day of month 0")
+		o.rejectsAfter(du, L("(recv.InclusiveRange."+b+" < 32)", false), "dom-bounds|"+b+"-high", "a day of month beyond 31")
+		o.rejectsAfter(du, L("(recv.InclusiveRange."+b+" < -31)", true), "dom-bounds|"+b+"-low", "a day of month before -31")
+	}
+	o.MinSites(20)
 }
